@@ -57,6 +57,9 @@ MUTANTS = {
     "c03-csr-key-without-ndof": ("C03", "EasyFEA/Simulations/_simu.py",
         "        inv, indices, indptr, nnz = self.__Get_csr_map(dof_n, isMatrix, Ndof, groups)\n",
         "        inv, indices, indptr, nnz = self.__Get_csr_map(dof_n, isMatrix, max(Ndof, 0) if not hasattr(self, '_ndof0') else self._ndof0, groups)\n        self._ndof0 = getattr(self, '_ndof0', Ndof)\n"),
+    "c03-flag-lowered-before-assembly-finishes": ("C03", "EasyFEA/Simulations/_simu.py",
+        "            self.__K, self.__C, self.__M, self.__F = self.Assembly(problemType)\n            self.Need_Update(False)\n",
+        "            self.Need_Update(False)\n            self.__K, self.__C, self.__M, self.__F = self.Assembly(problemType)\n"),
     "c03-drops-imaginary": ("C03", "EasyFEA/Simulations/_simu.py",
         "            ) + 1j * np.bincount(inv, weights=data.imag, minlength=nnz)\n",
         "            ) + 0j * np.bincount(inv, weights=data.imag, minlength=nnz)\n"),
